@@ -49,7 +49,7 @@ Theorem consistent_wfbc t d hs :
     Forall2 (fun h top => matches h (snd top) /\ htax (snd top) = xtax h /\ wf_node t (snd top) = true) hs (l_tops l).
 Proof.
   intros Hsp Hnd Hrefs Hg Hwf.
-  destruct (spelt_load t d hs Hsp Hnd Hg Hwf) as (l & El & Fl).
+  destruct (spelt_load t d hs Hsp Hnd Hrefs Hg Hwf) as (l & El & Fl).
   exists l. split; [exact El|]. split; [|exact Fl].
   pose proof (load_spec t d l El) as (L1 & L2 & L3 & L4 & L5).
   assert (Htops : Forall (fun top : option string * hog => wf_node t (snd top) = true /\ is_gene (snd top) = false) (l_tops l)).
